@@ -75,7 +75,17 @@ DeclVecs ==
                                             offexpires |-> T4, declst |-> d], 64, << 3 >>, 1000 + d), << 8, 11, 7 >>)
   \o SeqMap(LAMBDA d : SB("NewLeaseSet", 7, [ct |-> 4, nleases |-> 1, declst |-> d], 64, << >>, 1010 + d), << 8, 11, 7 >>)
   \o SeqMap(LAMBDA d : SB("NewRouterInfo", 7, [ct |-> 4, pairs |-> MapSets[3], naddr |-> 1, pubsec |-> PadTo(T4, 8), pubneg |-> FALSE, pubns |-> 0, declst |-> d], 64, << >>, 1020 + d), << 8, 11, 7 >>)
-Vecs == DeclVecs \o RIVecs \o LSVecs \o OffVecs \o ELSVecs \o ELSOddTransientVecs \o ELSMismatchVecs \o ELSDefectVecs \o LS2Vecs
+\* the same calls made by several goroutines at once, each around fresh keys
+CS(fn, st, m, siglen, prefix, k, n) == [ops |-> << [op |-> "ConcurrentSign", fn |-> fn, st |-> st, m |-> m, siglen |-> siglen, prefix |-> prefix, stream |-> k, n |-> n,
+                                                    reps |-> (IF Thorough THEN 2000 ELSE 250)] >>]
+ConcVecs ==
+  Concat(SeqMap(LAMBDA n : << CS("NewRouterInfo", 7, [ct |-> 4, pairs |-> MapSets[5], naddr |-> 2, pubsec |-> PadTo(T4, 8), pubneg |-> FALSE, pubns |-> 0], 64, << >>, 7000, n),
+                              CS("NewLeaseSet", 7, [ct |-> 4, nleases |-> 2], 64, << >>, 7100, n),
+                              CS("NewLeaseSet2", 7, [ct |-> 4, pairs |-> MapSets[5], off |-> TRUE, tst |-> 11, flags |-> 1, nkeys |-> 2, nleases |-> 2, published |-> T4, expires |-> 600,
+                                                     offexpires |-> << 101, 36, 250, 0 >>], 64, << 3 >>, 7200, n),
+                              CS("NewEncryptedLeaseSet", 11, [off |-> FALSE, tst |-> 7, flags |-> 0, innerlen |-> 100, published |-> T4, expires |-> 600, offexpires |-> T4], 64, << 5 >>, 7300, n) >>,
+                << 4, 16 >>))
+Vecs == ConcVecs \o DeclVecs \o RIVecs \o LSVecs \o OffVecs \o ELSVecs \o ELSOddTransientVecs \o ELSMismatchVecs \o ELSDefectVecs \o LS2Vecs
 VARIABLE done
 Init == done = FALSE
 Next == ~done /\ ndJsonSerialize(OutFile, Vecs) /\ PrintT(<< "GENERATED", Len(Vecs) >>) /\ done' = TRUE
